@@ -14,6 +14,7 @@ mod fam_admission;
 mod fam_liq;
 mod fam_math;
 mod fam_position;
+mod fam_sdk;
 mod hist;
 mod hist_oracle;
 mod rng;
@@ -70,6 +71,7 @@ pub fn families() -> Vec<Box<dyn Family>> {
     fam_dyn::register(&mut v);
     fam_pmod::register(&mut v);
     fam_fee::register(&mut v);
+    fam_sdk::register(&mut v);
     v
 }
 
